@@ -57,9 +57,9 @@ func c13Seqs(alpha []string, maxLen int) [][]string {
 }
 
 func c13Gen(c *vfCtx, emit func(c13Case)) {
-	n1, n2 := 4, 3
+	n1, n2 := 5, 3
 	if c.thorough() {
-		n1 = 5
+		n1, n2 = 7, 4
 	}
 	c.bound("abc_max_len", n1)
 	c.bound("special_alphabets_max_len", n2)
@@ -293,6 +293,7 @@ func c13Run(c *vfCtx, cs c13Case) {
 	c.count("transitions", 1)
 	got := t.outcome(mk)
 	c.outcome(got)
+	c.addSet("states", vfHash(strings.Join(t.errs[mk.e:], "\x00")))
 	if (got == "pass") != (cs.S == cs.R) || (got != "pass" && got != "failed") {
 		c.violation("", fmt.Sprintf("stored %q, received %q, colours=%v: the comparison signalled %s; a report must be absent iff the texts are byte-identical", vfClip(cs.S), vfClip(cs.R), cs.Color, got), cs)
 		return
